@@ -105,6 +105,14 @@ def build():
                  cbmc_args=[], timeout=900, mem_gb=4,
                  note="real binson_parser_to_string, loop-free; binson_parser_verify-in-print-mode replaced by a summary that asserts the callback precondition and abstracts the callbacks by their proved contract (assumption: induction over tokens); COMPLETE under that summary"))
 
+    # ---- step contracts of _advance_parsing (complete: the loop runs a statically known 1-2 iterations)
+    STEP = {1: ("array-nesting-limit", {"C02": "*", "C01": "*"}), 2: ("object-nesting-limit", {"C02": "*", "C01": "*", "C06": "*"}),
+            3: ("next-scalar", {"C03": "*", "C10": "*", "C06": "*"}), 4: ("lookup-overshoot-rewind", {"C07": "*", "C08": "*", "C16": "*"})}
+    for sc, (nm, pr) in STEP.items():
+        J.append(Job("E2/step/" + nm, "E3", "contracts/h_step.c", "h_step", pr, defs=["VC_SCEN=%d" % sc],
+                     cbmc_args=["--unwind", "9", "--unwindset", "_advance_parsing.0:3", "--unwinding-assertions", "--slice-formula"], timeout=1800, mem_gb=8,
+                     note="real _advance_parsing from a symbolic pre-state of one shape; the token loop provably runs <= 2 iterations (unwinding assertion), so this is COMPLETE for that shape; tokens within the first 64 bytes behind the cursor"))
+
     # ---- round-trip lemmas on the real encoder/decoder pair (complete: loops bounded by operand width)
     for nm in ("parse_pack", "pack_parse", "double"):
         J.append(Job("E1/lemma_" + nm, "E3", "contracts/h_lemmas.c", "h_lemma_" + nm, {"C05": "*", "C10": "*", "C03": "*", "C18": "*"},
@@ -171,23 +179,26 @@ def build():
             pr = {"C06": "*"}      # pinned shape of a listed known finding: reported under its own property only
         nm = "nav/%s/%s/N=%d%s" % ("oa"[root], seq, n, "/pinned" if doc else "")
         unw = max(9, n + 2)
+        heavy = any(c in seq for c in "RFGH")
+        uw = ["--unwind", str(unw), "--unwindset", "binson_parser_field_with_length.0:%d,ref_field.0:%d" % (n // 3 + 2, n // 3 + 2)]
         J.append(Job("E3/" + nm, "E3", "bounded/h_nav.c", "h_nav", pr, defs=defs,
-                     cbmc_args=["--unwind", str(unw), "--unwinding-assertions", "--no-standard-checks"],
-                     timeout=3600, mem_gb=2 if doc else 13, tier=tier,
+                     cbmc_args=uw + ["--unwinding-assertions", "--no-standard-checks"],
+                     timeout=3600, mem_gb=2 if doc else (22 if heavy else 13), tier=tier,
                      note="BOUNDED: all valid %s-rooted documents of exactly %d bytes x call sequence %s (E enter root, N next, O/A go_into_object/array, o/a leave_object/array, R get_raw, F/G/H field lookups); memory-safety checks are off in this tier (they are decided by E1/E2)" % ("array" if root else "object", n, seq)))
         if not doc:
             J.append(Job("E3/" + nm + "/feasible", "E3", "bounded/h_nav.c", "h_nav", {k: [] for k in pr}, defs=defs + ["VC_NO_LIB"],
-                         cbmc_args=["--unwind", str(unw), "--unwinding-assertions", "--no-standard-checks"],
-                         timeout=1200, mem_gb=3, tier=tier, note="reference-only run: is the sequence protocol-following on some valid document of this length?"))
+                         cbmc_args=uw + ["--unwinding-assertions", "--no-standard-checks"],
+                         timeout=1200, mem_gb=8, tier=tier, note="reference-only run: is the sequence protocol-following on some valid document of this length?"))
 
     LK = {"C07": "*"}
     RW = {"C11": "*"}
-    quick_nav = [("ENNo", 0, 7, None), ("ENONoo", 0, 7, None), ("ENo", 0, 7, None), ("ENRNo", 0, 7, RW), ("EFG", 0, 7, LK),
-                 ("EFN", 0, 7, LK), ("ENNa", 1, 6, None), ("ENANaN", 1, 6, None), ("ENONoN", 1, 6, None), ("ENRN", 1, 6, RW)]
+    quick_nav = [("ENNo", 0, 7, None), ("ENONoo", 0, 7, None), ("ENo", 0, 7, None), ("ENNa", 1, 6, None),
+                 ("ENANaNa", 1, 6, None), ("ENONoN", 1, 6, None), ("EFN", 0, 7, LK), ("ENRN", 1, 6, RW)]
     for seq, root, n, pr in quick_nav:
         nav(seq, root, n, "quick", pr)
-    thorough_nav = [("ENNNo", 0, 8, None), ("ENANaNo", 0, 8, None), ("ENAao", 0, 8, None), ("EGF", 0, 8, LK), ("EHFG", 0, 8, LK),
-                    ("EFGN", 0, 9, LK), ("ENANaN", 1, 8, None), ("ENAaN", 1, 8, None), ("ENRNRN", 1, 8, RW), ("ENONRNo", 0, 9, RW)]
+    thorough_nav = [("ENNNo", 0, 8, None), ("ENANaNo", 0, 8, None), ("ENAao", 0, 8, None), ("EFG", 0, 7, LK), ("EGF", 0, 8, LK),
+                    ("EHFG", 0, 8, LK), ("EH", 0, 7, LK), ("EFGN", 0, 9, LK), ("ENRNo", 0, 7, RW), ("ENANaN", 1, 8, None),
+                    ("ENAaN", 1, 8, None), ("ENRNRN", 1, 8, RW), ("ENONRNo", 0, 9, RW)]
     for seq, root, n, pr in thorough_nav:
         nav(seq, root, n, "thorough", pr)
     # pinned shapes of the listed known findings (concrete documents)
